@@ -92,6 +92,11 @@ func (s *Service) Proposal(ctx context.Context,
 
 				return
 			}
+			if proposalResponse == nil || proposalResponse.Data == nil {
+				// A response without data is not a response we can use.
+				log.Warn().Dur("elapsed", time.Since(started)).Msg("Obtained empty proposal response; ignoring")
+				return
+			}
 			proposal := proposalResponse.Data
 			log.Trace().Dur("elapsed", time.Since(started)).Msg("Obtained beacon block proposal")
 
